@@ -121,6 +121,17 @@ func (r Target) Address(ctx context.Context, pos hcl.Pos) lang.Address {
 	return r.Addr
 }
 
+// AddressInFile is like Address for a position of the given file:
+// the range a local (self) address is usable from belongs to one file,
+// a position of any other file gets the absolute address
+func (r Target) AddressInFile(ctx context.Context, filename string, pos hcl.Pos) lang.Address {
+	if len(r.Addr) > 0 && r.TargetableFromRangePtr != nil && r.TargetableFromRangePtr.Filename != filename {
+		return r.Addr
+	}
+
+	return r.Address(ctx, pos)
+}
+
 func (r Target) FriendlyName() string {
 	if r.Name != "" {
 		return r.Name
